@@ -135,8 +135,13 @@ func (st *Stack) reloadOnce(names []string, reuseOpen bool) error {
 	}
 
 	var newTables []*Reader
+	reused := map[*Reader]bool{}
 	defer func() {
 		for _, t := range newTables {
+			if reused[t] {
+				// Still part of st.stack, which stays in use on failure.
+				continue
+			}
 			t.Close()
 		}
 	}()
@@ -145,6 +150,7 @@ func (st *Stack) reloadOnce(names []string, reuseOpen bool) error {
 		rd := cur[name]
 		if reuseOpen && rd != nil {
 			delete(cur, name)
+			reused[rd] = true
 		} else {
 			bs, err := NewFileBlockSource(filepath.Join(st.reftableDir, name))
 			if err != nil {
